@@ -62,7 +62,8 @@ def _reg(pid, run, theorems=(), translator=("T1",), rule="", level_text="", leve
 
 _reg("C01", c01.run, translator=("T1", "T2", "T3"),
      theorems=["NirVerif.C01.edges_roundtrip", "NirVerif.C01.transport", "NirVerif.C01.nothing_added", "NirVerif.C01.type_tag",
-               "NirVerif.C01.leaf_end_to_end", "NirVerif.C01.leaf_native_roundtrip", "NirVerif.C01.graph_end_to_end",
+               "NirVerif.C01.leaf_end_to_end", "NirVerif.C01.leaf_native_roundtrip", "NirVerif.C01.leaf_exact",
+               "NirVerif.C01.graph_end_to_end",
                "NirVerif.C01.child_step", "NirVerif.C01.backVal_array",
                "NirVerif.C01.backVal_npscalar", "NirVerif.C01.backVal_int"],
      rule="Random graphs over all 17 primitives + nested graphs (depth <= 3), 0-8 nodes, arbitrary names (ASCII, Latin-1, "
@@ -79,7 +80,9 @@ _reg("C01", c01.run, translator=("T1", "T2", "T3"),
                 "stores it and item[()] returns it), whatever order the file lists the members in, the empty metadata "
                 "re-defaulted; for file-native values (arrays, little-endian numpy scalars - every node that itself came "
                 "from a file) that is the constructor on the node's own field values (leaf_native_roundtrip), i.e. read o "
-                "write agrees with the dictionary round trip of C13. End to end for flat graphs (graph_end_to_end): for a graph "
+                "write agrees with the dictionary round trip of C13; and a node built by the constructor of a class that stores its "
+                "parameters unchanged (12 of the 17 classes) with native values is read back as EXACTLY the same node "
+                "(leaf_exact: fields, value types, derived types, metadata). End to end for flat graphs (graph_end_to_end): for a graph "
                 "whose children are leaf primitives of any class (Input/Output/Flatten with their class-specific from_dict "
                 "included; any number of nodes, any names, any edge list; empty metadata), whenever write succeeds and "
                 "read returns a graph, that graph has exactly the same edges in order, empty metadata, the same set of "
@@ -213,14 +216,17 @@ _reg("C12", c12.run,
                 "write+read and infer_types the graph-level dictionaries are the children's current ones.",
      level_note="Lean kernel; hand-written model of __post_init__/infer_types; histories with round trips rely on the oracle.")
 _reg("C13", c13.run, translator=("T1", "T2"),
-     theorems=["NirVerif.C13.keys", "NirVerif.C13.no_types", "NirVerif.C13.roundtrip"],
+     theorems=["NirVerif.C13.keys", "NirVerif.C13.no_types", "NirVerif.C13.roundtrip", "NirVerif.C13.roundtrip_exact"],
      rule="Graphs of the C01 domain plus consistent graphs with erased (None) annotations: to_dict output checked for "
           "plain values and documented keys, for shared ids and shared memory with the graph, for strict (type-identical) "
           "equivalence of from_dict(to_dict(g)), and by mutating the dictionary and re-snapshotting the graph; the model's "
           "to_dict and round trip are compared with the real ones.",
      level_text="Kernel-checked: the dictionary of a leaf primitive has exactly the node's fields, metadata and type as keys "
                 "and never the derived types; from_dict(to_dict(n)) re-runs the constructor on exactly the node's own "
-                "field values (None annotations carried). Independence of mutable state cannot be expressed in a model of "
+                "field values (None annotations carried); for a node built by the constructor of a class that stores its "
+                "parameters unchanged (Affine, Linear, Scale, Threshold, Delay, I, IF, LI, LIF, SumPool2d, AvgPool2d, Conv1d) "
+                "that is EXACTLY the same node (roundtrip_exact: a constructed node is the constructor applied to its own "
+                "fields). Independence of mutable state cannot be expressed in a model of "
                 "immutable values: it is observed on the real objects by the oracle (ids, shared memory, mutation).",
      level_note="Lean kernel; hand-written models of to_dict/from_dict/write/read and of the h5py contract (create_dataset conversions, item[()], link names, iteration order), validated against the real library and real files on every run.")
 _reg("C14", c14.run, translator=("T1", "T4", "T5"),
